@@ -26,7 +26,8 @@ RULE = ("histories write(A); write(B, overwrite=o1); write(C, overwrite=o2) (len
         "the Nx/Rx/Sg backend writers called directly, geff.write for networkx and spatial-graph, write_arrays; fixed blocks per zarr format "
         "(fresh/refused/overwritten, geff beside foreign members then every entry point by path, store kinds) + random mixed histories")
 EXHAUSTIVE_BLOCKS = ["store kind x zarr format x (o1, o2) in {F,T}^2 for one fixed triple of graphs"]
-ASSUMPTIONS = ["equality after an overwrite is on the decoded hierarchy (abstract dump) and the read-back graph, not on bytes",
+ASSUMPTIONS = ["consolidated metadata (.zmetadata) is not part of the tree model: histories that consolidate the metadata of a store OBJECT are oracle-only",
+               "equality after an overwrite is on the decoded hierarchy (abstract dump) and the read-back graph, not on bytes",
                "the Coq model has one zarr format per history; format-changing overwrites are checked by the oracle only",
                "entry-point histories: trees are compared with the opaque metadata tokens (axis type/unit, version, related objects, extra) blanked; "
                "the spatial-graph writer is modelled behind write_props_arrays' in-place unsquish of the position column; the label volume inside "
@@ -90,6 +91,16 @@ def generate(rng: random.Random, tier: str):
         for o1 in (False, True):
             yield {"kind": "history", "store": "tilde", "fmt": [fmt, fmt, fmt], "pre": "fresh", "entry": "arrays",
                    "calls": [dict(A, ov=False, validate=True), dict(B, ov=o1, validate=True), dict(C, ov=not o1, validate=True)]}
+    # a geff whose metadata was consolidated (zarr.consolidate_metadata adds .zmetadata to a zarr-2 root, resp. a consolidated_metadata
+    # section to zarr.json) before the next call: refusal and complete replacement must be as without it
+    for store in ("path", "str", "local"):
+        for fmt in (2, 3):
+            for entry in ("arrays", "nx"):
+                A, B, C = three_graphs(random.Random(41 + fmt))
+                calls = ([nx_graph(rng, False), nx_graph(rng, False), nx_graph(rng, True)] if entry == "nx" else
+                         [dict(A, ov=False, validate=True), dict(B, ov=False, validate=True), dict(C, ov=True, validate=True)])
+                yield {"kind": "history", "store": store, "fmt": [fmt, fmt, fmt], "pre": "fresh", "entry": entry, "calls": calls,
+                       "consolidate": True}
     # an existing directory that is not a zarr group (for a path: "occupied"): refusal without overwrite, and what overwrite=True does
     for store in ("path", "str"):
         for fmt in (2, 3):
@@ -267,6 +278,9 @@ def run_impl(c):
         coq_calls, coq_steps = [], []
         modelled = c["entry"] == "arrays" and len(set(c["fmt"])) == 1 and c["store"] != "mixed"
         api_modelled = c["entry"] in ("nx", "rx") and len(set(c["fmt"])) == 1 and c["store"] != "mixed"
+        if c.get("consolidate") and c["store"] in ("mem", "local"):
+            # consolidated metadata of a store object is outside the tree model (it has no .zmetadata): oracle only (open finding)
+            modelled = api_modelled = False
         first_store = store
         for ci, (call, fmt) in enumerate(zip(c["calls"], c["fmt"])):
             # "mixed": the first graph is written through a LocalStore object (so it may sit beside foreign members), the later calls
@@ -294,6 +308,13 @@ def run_impl(c):
                 step["res"] = ["ok"]
             except Exception as e:
                 step["res"] = ["err", exn_name(e), str(e)[:100]]
+            if c.get("consolidate") and step["res"][0] == "ok":
+                import zarr
+
+                try:
+                    zarr.consolidate_metadata(real)
+                except Exception:
+                    pass
             if api_modelled:
                 try:
                     if captured:
@@ -380,7 +401,7 @@ def oracle(c, o):
         return c06_entries.oracle(c, o)
     fmt_change = len(set(c["fmt"])) > 1
     for i, (call, st) in enumerate(zip(c["calls"], o["steps"])):
-        tags = {"step": i, "store": "object" if c["store"] in ("mem", "local") else (c["store"] if c["store"] in ("tilde", "mixed") else "path"), "pre": c["pre"], "entry": c["entry"], "fmt_change": fmt_change}
+        tags = {"step": i, "store": "object" if c["store"] in ("mem", "local") else (c["store"] if c["store"] in ("tilde", "mixed") else "path"), "pre": c["pre"], "consolidated": bool(c.get("consolidate")), "entry": c["entry"], "fmt_change": fmt_change}
         if fmt_change:
             tags["formats"] = f"{c['fmt'][0]}->{c['fmt'][1]}"
         if st["existed"] and not call["ov"]:
